@@ -56,7 +56,23 @@ async fn listen_inner(
 ) {
     let manager = Arc::new(SpeedtestManager::default());
     loop {
-        match tokio::time::timeout(timeout, codec.listen()).await {
+        let listened = {
+            let listen = codec.listen();
+            tokio::pin!(listen);
+            loop {
+                match tokio::time::timeout(timeout, &mut listen).await {
+                    // the same future is awaited again: over HTTP/1.1 it is what writes the
+                    // response body, and dropping it half way would lose the chunk in flight
+                    Err(_elapsed) if manager.running_tests_num.load(Ordering::Acquire) > 0 => log_id!(
+                        trace,
+                        log_id,
+                        "Ignoring timeout due to there are some uncompleted tests"
+                    ),
+                    x => break x,
+                }
+            }
+        };
+        match listened {
             Ok(Ok(Some(x))) => {
                 let request_headers = x.request().request();
                 log_id!(
@@ -111,11 +127,6 @@ async fn listen_inner(
                 log_id!(debug, log_id, "Session error: {}", e);
                 break;
             }
-            Err(_elapsed) if manager.running_tests_num.load(Ordering::Acquire) > 0 => log_id!(
-                trace,
-                log_id,
-                "Ignoring timeout due to there are some uncompleted tests"
-            ),
             Err(_elapsed) => {
                 log_id!(debug, log_id, "Closing due to timeout");
                 if let Err(e) = codec.graceful_shutdown().await {
